@@ -174,6 +174,12 @@ def witness_crate(d: Decl, extra_inputs=()):
             body.append('    report("FromStr", label, setting, format!("{:?}", %s::from_str(x.as_str()).map(|v| v.into_inner())), expected.clone(), n);\n' % S)
         else:
             body.append('    report("FromStr", label, setting, format!("{:?}", %s::from_str(x.as_str()).map(|v| v.into_inner()).unwrap()), expected.clone(), n);\n' % S)
+    if has_v and d.custom_validation is None and d.family in ('int', 'float'):
+        # C16 embedding: the FromStr / serde error text contains the validation error's Display text
+        if 'FromStr' in d.derives:
+            body.append('    if let Err(e) = %s::try_new(x.clone()) { if let Err(pe) = %s::from_str(&format!("{:?}", x)) { let (a, b) = (pe.to_string(), e.to_string()); if let Ok(_) = format!("{:?}", x).parse::<%s>() { report("Embedding", &format!("FromStr {}", label), setting, format!("contains={}", a.contains(&b)), "contains=true".to_string(), n); } } }\n' % (S, S, I))
+        if 'Deserialize' in d.derives:
+            body.append('    if let Err(e) = %s::try_new(x.clone()) { if let Ok(doc) = serde_json::to_string(&x) { if doc != "null" { if let Err(se) = serde_json::from_str::<%s>(&doc) { report("Embedding", &format!("serde_json {}", doc), setting, format!("contains={}", se.to_string().contains(&e.to_string())), "contains=true".to_string(), n); } } } }\n' % (S, S))
     if 'FromStr' in d.derives and d.family in ('int', 'float'):
         # non-string FromStr (C06): inner parse, then the constructor
         body.append('    for s in [format!("{:?}", x), format!("{}", x), format!(" {}", x), format!("{}\\n", x), format!("\\u{a0}{}", x), format!("+{}", x), String::new(), "abc".to_string(), "99999999999999999999999999999999999999999999".to_string(), "-0".to_string(), "NaN".to_string(), "inf".to_string(), "1e400".to_string()] {\n')
